@@ -152,7 +152,9 @@ class IffChunk(object):
     def delete(self) -> None:
         """Removes the chunk from the file"""
 
-        delete_bytes(self._fileobj, self.size, self.offset)
+        # a truncated chunk ends with the file
+        size = self.HEADER_SIZE + self._get_actual_data_size()
+        delete_bytes(self._fileobj, size, self.offset)
         if self.parent_chunk is not None:
             self.parent_chunk._remove_subchunk(self)
         self._fileobj.flush()
